@@ -197,11 +197,15 @@ def check_target_table(ctx: Ctx, cname: str) -> None:
             continue
         seen += 1
         verdicts: List[Tuple[bool, str, Any]] = []
+        # a dictionary built aside and bound to the table afterwards stands for the table while it is filled
+        aside = {strip_ver(s.value) for s in p.events if s.kind == "store" and s.attr == "target_markets" and key(strip_ver(s.base)) == "self" and strip_ver(s.value)[0] == "sym" and strip_ver(s.value)[1].startswith("new")}
+        filled_aside = set()
         for e in p.events:
             if e.kind == "loop":
                 el = ("sym", f"{e.target[0]}∈{e.loopid}") if e.target else None
                 for bp in e.paths:
-                    sts = [s for s in bp.walk_events(True) if (s.kind == "store" and s.attr is None and strip_ver(s.base) == table) or (s.kind == "call" and s.recv is not None and strip_ver(s.recv) == table and s.name in MUTATORS)]
+                    sts = [s for s in bp.walk_events(True) if (s.kind == "store" and s.attr is None and (strip_ver(s.base) == table or strip_ver(s.base) in aside)) or (s.kind == "call" and s.recv is not None and (strip_ver(s.recv) == table or strip_ver(s.recv) in aside) and s.name in MUTATORS)]
+                    filled_aside |= {strip_ver(s.base) for s in sts if s.kind == "store" and strip_ver(s.base) in aside}
                     if bp.exit[0] == "raise":
                         continue
                     if not sts:
@@ -215,6 +219,8 @@ def check_target_table(ctx: Ctx, cname: str) -> None:
                     b = ("bound", arg[3][0][0][0])
                     ok = arg[2] == ("tuple", (b, market_of(b)))
                 verdicts.append((ok, short_(e), e.node))
+            elif e.kind == "store" and e.attr == "target_markets" and key(strip_ver(e.base)) == "self" and (strip_ver(e.value) == table or strip_ver(e.value) in filled_aside):
+                pass  # the table bound to itself, or to the dictionary that was filled for it (judged where it was filled)
             elif e.kind == "store" and e.attr == "target_markets" and key(strip_ver(e.base)) == "self":
                 arg = normalise(strip_ver(e.value))
                 ok = arg[0] == "comp" and arg[1] == "dictcomp" and len(arg[3]) == 1 and len(arg[3][0][0]) == 1 and not arg[3][0][2] and arg[3][0][1] == src
@@ -314,6 +320,39 @@ def check_or_defaults(ctx: Ctx, base: Optional[str], floor: int = 1) -> None:
             if numeric:
                 bad += 1
                 ctx.violated(g, n, f"{g.qualname} takes configured numbers as given", "presence test (`k in settings` / `is not None`) before falling back to a default", f"`{_ast.unparse(n)[:120]}`: a configured 0 counts as absent and is replaced by the default")
+        # the same mistake spelled as a test: `if not settings.get(k): ...` treats a configured 0 as absent
+        def numeric_evidence(name: Optional[str], node: _ast.AST) -> bool:
+            for m in _ast.walk(g.node):
+                if isinstance(m, _ast.Call) and isinstance(m.func, _ast.Name) and m.args:
+                    a0 = m.args[0]
+                    same = (name is not None and isinstance(a0, _ast.Name) and a0.id == name) or (name is None and _ast.dump(a0) == _ast.dump(node))
+                    if same and m.func.id in ("int", "float"):
+                        return True
+                    if same and m.func.id == "isinstance" and len(m.args) == 2 and any(isinstance(x, _ast.Name) and x.id in ("int", "float") for x in _ast.walk(m.args[1])):
+                        return True
+            return False
+
+        tests = []
+        for n in _ast.walk(g.node):
+            if isinstance(n, (_ast.If, _ast.IfExp, _ast.While)):
+                tests.append(n.test)
+        for t in tests:
+            cands = [t]
+            while cands:
+                c = cands.pop()
+                if isinstance(c, _ast.UnaryOp) and isinstance(c.op, _ast.Not):
+                    cands.append(c.operand)
+                    continue
+                if isinstance(c, _ast.BoolOp):
+                    cands.extend(c.values)
+                    continue
+                src = reads_settings(c, names, local)
+                if src is None or isinstance(c, _ast.Call) and isinstance(c.func, _ast.Name):
+                    continue
+                nm = c.id if isinstance(c, _ast.Name) else None
+                if numeric_evidence(nm, c):
+                    bad += 1
+                    ctx.violated(g, c, f"{g.qualname} takes configured numbers as given", "presence test (`k in settings` / `is not None`)", f"`{_ast.unparse(t)[:100]}` tests the truth value of {src}: a configured 0 counts as absent")
         if not bad:
             ctx.holds(g, g.node, f"{g.qualname} takes configured numbers as given", "no `<settings read> or <default>` in a numeric place")
     ctx.require(ns >= floor, "fewer setup(settings) implementations than confirmed by reading")
